@@ -3,6 +3,7 @@ CONSTANTS
   Weak_NoProofIndexBinding = TRUE
   Weak_AuntLenUnchecked = FALSE
   Weak_NoLeafCheck = FALSE
+  Weak_TruncatedPosition = FALSE
 INIT PSInit
 NEXT PSNext
 INVARIANTS PartBinds Reassembles
